@@ -498,6 +498,21 @@ def zero_status(e, pc=None, domain=None, n=10, simplify_seconds=8, seed=0, scale
             scale = max(scale, sum(abs(complex(sp.N(sp.sympify(a).subs(pt), 40))) for a in terms))
         except Exception:  # noqa: BLE001
             continue
+        if val == val and abs(val) < 1e-30:
+            # numerically nil at 40 digits although the terms do not cancel term by term (nested expression): an exact zero of an
+            # algebraic number is confirmed by sympy, otherwise the tiny value is compared with the magnitude of the sub-expressions
+            try:
+                if sub == 0 or _with_alarm(5, lambda: sp.simplify(sub) == 0):
+                    worst = max(worst or 0., 0.)
+                    nev += 1
+                    continue
+            except Exception:  # noqa: BLE001
+                pass
+            mags = [abs(complex(sp.N(a, 40))) for a in sp.preorder_traversal(sub) if getattr(a, "is_number", False) and not a.is_Rational]
+            if mags and abs(val) <= 1e-25 * max(mags):
+                worst = max(worst or 0., abs(val))
+                nev += 1
+                continue
         if val != val or abs(val) > 1e-12 * (scale + 1e-300) + abs_tol:
             return "refuted", "sympy", f"residue {str(e)[:300]} is {val} at {{{', '.join(f'{k}: {v}' for k, v in pt.items())}}}"
         worst = max(worst or 0., abs(val))
